@@ -25,7 +25,7 @@ use vstd::std_specs::convert::*;
 
 def modules(repo):
     from . import core_error, core_common, core_context, core_stringclasses, core_profile, profiles_common, profiles_bidi, profiles_passwords, profiles_usernames, nicknames
-    spec = Module('spec', None, [Text(rd('spec_spaces.rs')), Text(rd('spec_core.rs')), Text(rd('spec_stabilize.rs')), Text(rd('spec_profiles.rs')), Text(rd('spec_bidi.rs')), Text(rd('spec_bidi_exact.rs'), tag='C09.exact')], header='use super::*;\nuse crate::vx::*;\nuse crate::precis_core::DerivedPropertyValue;\n')
+    spec = Module('spec', None, [Text(rd('spec_spaces.rs'), tag='C12+C05.spec_lemmas'), Text(rd('spec_core.rs'), tag='C02+C03+C14.spec_lemmas'), Text(rd('spec_stabilize.rs'), tag='C13.spec_lemmas'), Text(rd('spec_profiles.rs'), tag='C04+C05+C06+C07+C08+C10+C11.spec_lemmas'), Text(rd('spec_bidi.rs'), tag='C09.spec_lemmas'), Text(rd('spec_bidi_exact.rs'), tag='C09.exact')], header='use super::*;\nuse crate::vx::*;\nuse crate::precis_core::DerivedPropertyValue;\n')
     core = Module('precis_core', None, [
         core_error.derived_property_enum(repo),
         core_error.module(repo),
